@@ -337,3 +337,10 @@ def run(chk):
                'the text of a still unnamed message reaches Group.parse_children before _find_structure(): self.reference '
                'does not exist yet, the AttributeError fallback parses with find_groups=False and every segment is attached '
                'directly under the message', '%s:%d' % (mp.module.relpath, (bad or sup)[0].lineno), key='C08-G|adopt')
+
+    chk.rule('C08-D2', 'decision structure of the functions this property is anchored in: every effect statement (store, call, return, '
+                   'raise) runs under the same combinations of the function\'s elementary tests as in the reviewed tree, and none '
+                   'was deleted (reference/decisions.json; compared by meaning, rewritten functions are not compared)')
+    from . import guardrules as _gr
+    nd2_ = _gr.check_decisions(chk, c, 'C08-D2', lambda fq_: fq_.startswith(('core.Group.', 'parser.parse_segments', 'parser._get_segment_reference')))
+    chk.floor('functions compared with the decision reference (C08-D2)', nd2_, 1)
